@@ -89,7 +89,9 @@ def _build_edge(d):
 
 
 def _numeric_slots(level, obj):
-    """List of (name, array, norm-array) for perturbable stored numeric components of obj."""
+    """List of (name, array) for perturbable stored numeric components of obj (made writable first)."""
+    if level == "edge" and not np.asarray(obj.information).flags.writeable:
+        obj.information = np.array(obj.information)
     slots = []
     if level == "pose":
         slots.append(("pose", obj))
@@ -105,11 +107,12 @@ def _numeric_slots(level, obj):
 
 
 def _perturb(arr, idx, f, tol):
+    """Add f*tol*max(|arr|, tol) to one stored component of `arr`, in place (any memory layout)."""
     a = np.asarray(arr)
-    flat = a.reshape(-1)
-    nrm = float(np.linalg.norm(flat))
+    nrm = float(np.linalg.norm(a.reshape(-1)))
     delta = f * tol * max(nrm, tol)
-    flat[idx % len(flat)] += delta
+    where = np.unravel_index(idx % a.size, a.shape)
+    a[where] += delta
     return delta
 
 
